@@ -107,8 +107,8 @@ def z_getitem(ex, st, node, base, key):
             ax += 1
         shape += list(base.shape[ax:])
         if not shape:
-            return ZScal(base.kind)
-        return ZArr(shape, base.kind)
+            return ZScal(kind_of(base))
+        return ZArr(shape, kind_of(base))
     raise Unsupported(f'subscript of {type(base).__name__}')
 
 
@@ -131,6 +131,13 @@ def z_setitem(ex, st, node, base, key, v):
                 raise Unsupported(f'store index {k!r}')
             ax += 1
         shape += list(base.shape[ax:])
+        if ex.check_dtypes and kind_le(kind_of(v), kind_of(base)):
+            from .symexec import Obligation as _Ob
+            ex.obligations.append(_Ob('dtype', f'{ast.unparse(node)[:50]}: no narrowing store ({kind_of(v)} into {kind_of(base)})', node.lineno, True))
+        if ex.check_dtypes and not kind_le(kind_of(v), kind_of(base)):
+            from .symexec import Obligation as _Ob
+            ex.obligations.append(_Ob('dtype', f'{ast.unparse(node)[:50]}: no narrowing store ({kind_of(v)} into {kind_of(base)})', node.lineno, False,
+                                      f'a value of kind {kind_of(v)} is stored into an array of kind {kind_of(base)}: the imaginary/fractional part is dropped'))
         if getattr(v, 'is_zarr', False):
             # broadcasting: value shape must equal the target shape (trailing alignment, size-1 axes not used here)
             if len(v.shape) > len(shape):
@@ -156,8 +163,8 @@ def _elementwise(ex, st, node, l, r):
             else:
                 oblige(ex, st, node, 'shape', f'{ast.unparse(node)[:50]}: operand shapes agree', zint(a) == zint(b))
                 out.append(a)
-        return ZArr(out)
-    return ZArr((l if la else r).shape)
+        return ZArr(out, kind_join(kind_of(l), kind_of(r)))
+    return ZArr((l if la else r).shape, kind_join(kind_of(l), kind_of(r)))
 
 
 def z_binop(ex, st, node, op, l, r):
@@ -176,9 +183,13 @@ def z_binop(ex, st, node, op, l, r):
                 return ZArr((r.shape[1],))
         raise Unsupported('matmul operands')
     if la or ra:
-        return _elementwise(ex, st, node, l, r)
+        res = _elementwise(ex, st, node, l, r)
+        if isinstance(op, ast.Div) and res.kind == 'int':
+            res.kind = 'real'
+        return res
     if ls or rs:
-        return ZScal()
+        k = kind_join(kind_of(l), kind_of(r))
+        return ZScal('real' if (isinstance(op, ast.Div) and k == 'int') else k)
     return NotImplemented
 
 
@@ -186,6 +197,35 @@ def z_compare(ex, st, node, op, l, r):
     if getattr(l, 'is_zscal', False) or getattr(r, 'is_zscal', False):
         return z3.Bool(f'cmp!{next(_fresh)}')       # free boolean: both outcomes explored
     return NotImplemented
+
+
+KIND_ORDER = {'int': 0, 'real': 1, 'complex': 2}
+
+def kind_join(a, b):
+    if a == b:
+        return a
+    if a in KIND_ORDER and b in KIND_ORDER:
+        return a if KIND_ORDER[a] >= KIND_ORDER[b] else b
+    return 'complex' if 'complex' in (a, b) else (a if a not in KIND_ORDER else b)
+
+def kind_le(a, b):
+    """may a value of kind a be stored into an array of kind b without loss?  'param:x' = the (unknown) kind of argument x"""
+    if a == b or b == 'complex':
+        return True
+    if a in KIND_ORDER and b in KIND_ORDER:
+        return KIND_ORDER[a] <= KIND_ORDER[b]
+    if a == 'int':
+        return True
+    return False
+
+def kind_of(v):
+    if getattr(v, 'is_zarr', False) or getattr(v, 'is_zscal', False):
+        return getattr(v, 'kind', 'complex') or 'complex'
+    if isinstance(v, bool) or isinstance(v, int) or is_z(v):
+        return 'int'
+    if isinstance(v, float):
+        return 'real'
+    return 'complex'
 
 
 def _shape_arg(shp):
@@ -197,7 +237,15 @@ def np_zeros(ex, st, node, args, kw):
     shp = _shape_arg(args[0])
     for d in shp:
         oblige(ex, st, node, 'shape', f'{ast.unparse(node)[:40]}: dimension >= 0', zint(d) >= 0)
-    return ZArr(shp)
+    dt = kw.get('dtype')
+    kind = 'real'
+    if dt is not None:
+        if isinstance(dt, tuple) and dt and dt[0] == 'dtype':
+            kind = dt[1]
+        else:
+            nm = getattr(dt, 'name', None) or (dt if isinstance(dt, str) else '')
+            kind = {'complex': 'complex', 'float': 'real', 'int': 'int'}.get(nm, 'complex')
+    return ZArr(shp, kind)
 
 def np_norm(ex, st, node, args, kw):
     return ZScal('real')
@@ -215,14 +263,19 @@ def g_shape(ex, st, node, base):
 
 def g_T(ex, st, node, base):
     if getattr(base, 'is_zarr', False):
-        return ZArr(tuple(reversed(base.shape)))
+        return ZArr(tuple(reversed(base.shape)), kind_of(base))
     return NotImplemented
 
 def g_real(ex, st, node, base):
     if getattr(base, 'is_zarr', False):
-        return base
+        return ZArr(base.shape, 'real' if kind_of(base) != 'int' else 'int')
     if getattr(base, 'is_zscal', False):
         return ZScal('real')
+    return NotImplemented
+
+def g_dtype_z(ex, st, node, base):
+    if getattr(base, 'is_zarr', False) or getattr(base, 'is_zscal', False):
+        return ('dtype', kind_of(base))
     return NotImplemented
 
 def g_ndim(ex, st, node, base):
@@ -304,7 +357,7 @@ LIB_Z = {
     'ifexp': z_ifexp,
     'getitem': z_getitem, 'setitem': z_setitem, 'binop': z_binop, 'compare': z_compare, 'len': z_len, 'neg': z_neg,
     'np.zeros': np_zeros, 'np.linalg.norm': np_norm, 'np.vdot': np_vdot, 'np.finfo': np_finfo, 'np.exp': np_exp,
-    'getattr.shape': g_shape, 'getattr.T': g_T, 'getattr.real': g_real, 'getattr.ndim': g_ndim, 'getattr.eps': g_eps,
+    'getattr.shape': g_shape, 'getattr.T': g_T, 'getattr.real': g_real, 'getattr.ndim': g_ndim, 'getattr.eps': g_eps, 'getattr.dtype': g_dtype_z,
     '.reshape': m_reshape, 'warnings.warn': warn, '.conj': lambda ex, st, node, args, kw: args[0],
     '.copy': lambda ex, st, node, args, kw: args[0],
 }
